@@ -99,3 +99,131 @@ Example C19_nonvacuous :
   /\ monitor 10 (trace (init 10 10) l) = true
   /\ monitor 10 (trace (init 1 10) l) = false.
 Proof. vm_compute. repeat split. Qed.
+
+(* ------------------------------------------------------------------ the limiter in front of VerifyToken
+   Two further clauses of the property, about WHERE the limiter sits in
+   /repo/main.go (VerifyToken, performPreVerificationChecks) and in the request
+   ladder.  Model: Model/Middleware.v; Proofs/LimiterGate.v defines
+   verify_token_limited (VerifyToken with the limiter's decision as an input;
+   `true` gives Middleware.verify_token) and serve_limited (the ladder over it;
+   `true` gives Middleware.serve). *)
+From VF Require Model.Cache Model.Session Model.Middleware Spec.WorldSpec Proofs.W_C04 Proofs.LimiterGate.
+
+(* the limited VerifyToken and ladder are the model's when the limiter admits *)
+Theorem C19_admitted_is_verify : forall (E : Middleware.env) (st : Middleware.inst) (now : time) (t : Session.istr),
+  LimiterGate.verify_token_limited E st now t true = Middleware.verify_token E st now t.
+Proof. exact LimiterGate.verify_limited_admitted. Qed.
+Print Assumptions C19_admitted_is_verify.
+
+Theorem C19_admitted_is_serve :
+  forall (E : Middleware.env) (cfg : Middleware.config) (st : Middleware.inst) (now : time)
+         (rq : Middleware.request) (rnd : Session.istr * Session.istr * Session.istr)
+         (ans : option Middleware.answer),
+    LimiterGate.serve_limited E cfg true st now rq rnd ans = Middleware.serve E cfg st now rq rnd ans.
+Proof. exact LimiterGate.serve_limited_admitted. Qed.
+Print Assumptions C19_admitted_is_serve.
+
+(* "verifications beyond the limit are refused without being performed": when
+   the limiter refuses, the call answers `true` only for a token already in the
+   verification cache (that lookup precedes the limiter); otherwise it answers
+   false; in every case the blacklist is untouched (neither the raw-token nor
+   the jti lookup happened, no jti was recorded), the verification cache is
+   exactly what its own lookup left — nothing was added —, and readiness and
+   endpoints are unchanged. *)
+Theorem C19_refused_not_performed :
+  forall (E : Middleware.env) (st : Middleware.inst) (now : time) (t : Session.istr),
+    let r := LimiterGate.verify_token_limited E st now t false in
+    (snd r = true <-> exists v, snd (Cache.get now t (Middleware.i_tcache st)) = Some v)
+    /\ Middleware.i_black (fst r) = Middleware.i_black st
+    /\ Middleware.i_tcache (fst r) = fst (Cache.get now t (Middleware.i_tcache st))
+    /\ (forall k e, lookup k (Cache.items (Middleware.i_tcache (fst r))) = Some e ->
+                    lookup k (Cache.items (Middleware.i_tcache st)) = Some e)
+    /\ Middleware.i_ready (fst r) = Middleware.i_ready st
+    /\ Middleware.i_auth_url (fst r) = Middleware.i_auth_url st
+    /\ Middleware.i_end_session (fst r) = Middleware.i_end_session st.
+Proof. exact LimiterGate.refused_not_performed. Qed.
+Print Assumptions C19_refused_not_performed.
+
+(* ... on a cache miss: the verdict is false and the token is not cached *)
+Theorem C19_refused_miss :
+  forall (E : Middleware.env) (st : Middleware.inst) (now : time) (t : Session.istr),
+    snd (Cache.get now t (Middleware.i_tcache st)) = None ->
+    LimiterGate.verify_token_limited E st now t false = (LimiterGate.after_lookup st now t, false)
+    /\ lookup t (Cache.items (Middleware.i_tcache (LimiterGate.after_lookup st now t))) = None.
+Proof. exact LimiterGate.refused_miss. Qed.
+Print Assumptions C19_refused_miss.
+
+(* ... and the refused call does not depend on what the token IS: whatever the
+   string denotes (any two environments), the result is the same — no parsing,
+   no signature or claim check took place *)
+Theorem C19_refused_blind :
+  forall (E1 E2 : Middleware.env) (st : Middleware.inst) (now : time) (t : Session.istr),
+    LimiterGate.verify_token_limited E1 st now t false = LimiterGate.verify_token_limited E2 st now t false.
+Proof. exact LimiterGate.refused_blind. Qed.
+Print Assumptions C19_refused_blind.
+
+(* "traffic on already authenticated sessions is not subject to this limit":
+   a request on a protected path whose cookies hold an authenticated session for
+   an ID token t that is acceptable now and not within the refresh grace period
+   (fresh_at), with an e-mail stored, never reaches VerifyToken: for either
+   decision of the limiter, any ready instance state, any random draw and any
+   provider answer, the state is returned as it was, no provider call is made,
+   and the response is the one the unlimited ladder gives from ANY ready
+   instance state. *)
+Theorem C19_sessions_exempt :
+  forall (E : Middleware.env) (cfg : Middleware.config) (now : time) (rq : Middleware.request) (t : Session.istr),
+    WorldSpec.gated E cfg rq = true ->
+    Session.authenticated now (WorldSpec.carried cfg now rq) = true ->
+    Session.get_access (Middleware.nchunks E) (WorldSpec.carried cfg now rq) = Session.TTok t ->
+    W_C04.fresh_at E cfg now t = true ->
+    Session.get_str 6 (Session.s_main (WorldSpec.carried cfg now rq)) <> 0%N ->
+    forall (admitted : bool) (st st' : Middleware.inst)
+           (rnd rnd' : Session.istr * Session.istr * Session.istr) (ans ans' : option Middleware.answer),
+      Middleware.i_ready st = true -> Middleware.i_ready st' = true ->
+      fst (LimiterGate.serve_limited E cfg admitted st now rq rnd ans) = st
+      /\ fst (Middleware.serve E cfg st now rq rnd ans) = st
+      /\ snd (LimiterGate.serve_limited E cfg admitted st now rq rnd ans)
+         = snd (Middleware.serve E cfg st' now rq rnd' ans')
+      /\ Middleware.r_calls (snd (LimiterGate.serve_limited E cfg admitted st now rq rnd ans)) = [].
+Proof. exact LimiterGate.sessions_exempt. Qed.
+Print Assumptions C19_sessions_exempt.
+
+(* the reason: on that branch the ladder does not call its verifier at all —
+   with ANY function in the place of VerifyToken the step is the same *)
+Theorem C19_sessions_never_verify :
+  forall (E : Middleware.env) (cfg : Middleware.config)
+         (V : Middleware.inst -> time -> Session.istr -> Middleware.inst * bool)
+         (st : Middleware.inst) (now : time) (rq : Middleware.request)
+         (rnd : Session.istr * Session.istr * Session.istr) (ans : option Middleware.answer) (t : Session.istr),
+    Middleware.i_ready st = true -> WorldSpec.gated E cfg rq = true ->
+    Session.authenticated now (WorldSpec.carried cfg now rq) = true ->
+    Session.get_access (Middleware.nchunks E) (WorldSpec.carried cfg now rq) = Session.TTok t ->
+    W_C04.fresh_at E cfg now t = true ->
+    Session.get_str 6 (Session.s_main (WorldSpec.carried cfg now rq)) <> 0%N ->
+    LimiterGate.serve_with E cfg V st now rq rnd ans
+    = (st, W_C04.steady_resp E cfg rq (WorldSpec.carried cfg now rq)).
+Proof. exact LimiterGate.sessions_exempt_with. Qed.
+Print Assumptions C19_sessions_never_verify.
+
+(* Non-vacuity (deployment of Proofs/W_Example.v): token 10 is acceptable and
+   not yet verified; admitted, the login completes and the token is cached;
+   refused, the callback answers 500, stores nothing and leaves the instance as
+   it was; the request carrying the valid session is forwarded identically
+   under both decisions. *)
+Example C19_limiter_nonvacuous :
+  (let cb := W_Example.ex_callback W_Example.ex_jar_pending in
+  let valid := W_Example.ex_req 5 W_Example.ex_jar_auth in
+  let run adm rq ans := LimiterGate.serve_limited W_Example.exE W_Example.excfg adm W_Example.ex_inst
+                                                  W_Example.ex_now rq W_Example.ex_rnd ans in
+  (snd (LimiterGate.verify_token_limited W_Example.exE W_Example.ex_inst W_Example.ex_now 10 true) = true
+   /\ LimiterGate.verify_token_limited W_Example.exE W_Example.ex_inst W_Example.ex_now 10 false
+      = (W_Example.ex_inst, false))
+  /\ (Middleware.r_status (snd (run true cb (Some (Middleware.AOk 10 0)))) = 302%N
+      /\ lookup 10%N (Cache.items (Middleware.i_tcache (fst (run true cb (Some (Middleware.AOk 10 0)))))) <> None)
+  /\ (Middleware.r_status (snd (run false cb (Some (Middleware.AOk 10 0)))) = 500%N
+      /\ Middleware.r_cookies (snd (run false cb (Some (Middleware.AOk 10 0)))) = []
+      /\ fst (run false cb (Some (Middleware.AOk 10 0))) = W_Example.ex_inst)
+  /\ (WorldSpec.forwarded (snd (run false valid None)) = true
+      /\ run false valid None = run true valid None
+      /\ fst (run false valid None) = W_Example.ex_inst))%N.
+Proof. exact LimiterGate.limiter_example. Qed.
